@@ -57,7 +57,7 @@ def run(ctx):
         else:
             res.violation("regression input fails: %s: %s" % (base, common.crash_head(out) or out[:400]), None, f)
     n = 2000                        # per process; rapidcheck slows down super-linearly, so many short runs
-    jobs = common.NCPU * ctx.pick(1, 60)
+    jobs = common.NCPU * ctx.pick(1, 5)
     work = os.path.join(common.ROOT, "work", "c16-%d" % os.getpid())
     os.makedirs(work, exist_ok=True)
 
